@@ -235,6 +235,17 @@ func (ww *conversionVisitor) visitObjectNode(node *sourcewalk.ObjectNode) {
 		ww.addError(node.Source, err)
 	}
 
+	// proto3 optional fields belong to a synthetic oneof, without it the field
+	// does not track presence once the descriptor is linked.
+	for _, field := range message.descriptor.Field {
+		if field != nil && field.GetProto3Optional() && field.OneofIndex == nil {
+			field.OneofIndex = gl.Ptr(int32(len(message.descriptor.OneofDecl)))
+			message.descriptor.OneofDecl = append(message.descriptor.OneofDecl, &descriptorpb.OneofDescriptorProto{
+				Name: gl.Ptr("_" + field.GetName()),
+			})
+		}
+	}
+
 	if node.HasNestedSchemas() {
 		subContext := ww.inMessage(message)
 		if err := node.RangeNestedSchemas(walkerSchemaVisitor(subContext)); err != nil {
